@@ -29,7 +29,11 @@ class CaseTimeout(Exception):
     pass
 
 
+_ALARM_FIRED = [False]
+
+
 def _alarm(signum, frame):
+    _ALARM_FIRED[0] = True
     raise CaseTimeout()
 
 
@@ -63,15 +67,21 @@ def match_open_finding(findings, key):
 def judge(mod, case, timeout):
     """Run check_case under a per-case wall limit. Returns Result (never raises)."""
     signal.signal(signal.SIGALRM, _alarm)
+    _ALARM_FIRED[0] = False
     signal.setitimer(signal.ITIMER_REAL, timeout)
     try:
         res = mod.check_case(case)
     except CaseTimeout:
+        res = None
+    finally:
+        signal.setitimer(signal.ITIMER_REAL, 0)
+    if res is None or _ALARM_FIRED[0]:
+        # the wall limit was hit: wherever the exception surfaced (it may have been swallowed by a
+        # session wrapper as an 'escaped' exception and left the case in a broken state), the case
+        # is inconclusive - a time limit is never a violation
         res = Result()
         res.inconclusive = True
         res.label('case-wall-limit')
-    finally:
-        signal.setitimer(signal.ITIMER_REAL, 0)
     return res
 
 
